@@ -31,7 +31,10 @@ TRUSTED = ["Coq 8.16.1 kernel (coqc); no axioms (Print Assumptions: closed under
            "rewrites); CPython typing / inspect are represented by the class table"]
 ASSUME = ["callbacks only add MetaData to the stream they are given and return one of: the site, the site with the method "
           "renamed, the site wrapped in a function call",
-          "the function name MetaData is not used inside lambdas", "lambdas supplied as strings or ast objects"]
+          "the function name MetaData is not used inside lambdas",
+          "lambdas supplied as strings or ast objects; queries that call a registered function also as Python callables "
+          "written in a generated module in which the registered functions have real one-line bodies (a registered function "
+          "is a backend function: the capture pass must leave the call by name, F54) - judged by the same oracle"]
 RULE = ("generated variants of an 8-class model with callbacks at every placement (class, class inherited from a decorated base, "
         "decorated subclass of an undecorated / differently decorated base with inherited, overridden and own methods, method, both, function "
         "processor, parameterized property), each with distinct metadata and a random rewrite; queries with call sites at "
@@ -286,8 +289,18 @@ class Q:
         return tc.op_call(r, coll, "Select", lam(nv, b)), self.cfire(kind, call(A(collx, "Select"), [lam(nv, bx)]), ev)
 
 
-def run_cases(ctx, model, desc, cases):
+FUNC_BODIES = {"myf": "a ** 0.5", "plainf": "a * 2.0 + 1.0"}
+
+
+def uses_function(q) -> bool:
+    return tc.callable_form_ok(q, FUNC_BODIES)
+
+
+def run_cases(ctx, model, desc, cases, form="ast"):
     from func_adl.util_ast import as_ast
+
+    runner = tc.run_impl if form == "ast" else tc.callable_runner(ctx.rng, model, desc, cases, FUNC_BODIES)
+    tag = "" if form == "ast" else "<python callable; registered functions with real bodies %s> " % FUNC_BODIES
 
     w = model.world_sx()
     item = model.ev("Event")
@@ -301,7 +314,8 @@ def run_cases(ctx, model, desc, cases):
         ctx.count("lambda_depth", str(depth))
         ctx.count("callback_sites", str(min(sites, 10)))
         ctx.count("operator", op)
-        impl = tc.run_impl(model, op, item, q)
+        ctx.count("form", form)
+        impl = runner(model, op, item, q)
         mod = tc.parse_model_answer(ans)
         want_calls = [e for e in ev if e[0] != "meta"]
         want_metas = [bridge.to_sx(as_ast(e[1])) for e in ev if e[0] == "meta"]
@@ -324,10 +338,10 @@ def run_cases(ctx, model, desc, cases):
                 ok, what = False, "emitted %s, the callbacks' rewrites give %s" % (
                     ast.unparse(bridge.from_sx(impl[1])), ast.unparse(qx))
         wit = {"desc": desc, "op": op, "query_dump": ast.dump(q), "query": ast.unparse(q), "expect_dump": ast.dump(qx),
-               "events": [list(e) for e in ev]}
+               "events": [list(e) for e in ev], "form": form}
         if not ok:
-            ctx.fail("failing-input", "%s(%s): %s" % (op, ast.unparse(q), what), dict(wit, oracle="callbacks"),
-                     key=core.digest({"p": ID, "d": desc, "q": ast.dump(q), "op": op}))
+            ctx.fail("failing-input", "%s(%s%s): %s" % (op, tag, ast.unparse(q), what), dict(wit, oracle="callbacks"),
+                     key=core.digest({"p": ID, "d": desc, "q": ast.dump(q), "op": op, "form": form}))
         if not tc.same_outcome(impl, mod):
             ctx.corr_disagreements += 1
             if ok:
@@ -361,7 +375,15 @@ def run(ctx):
     for mi in range(ctx.budget(12, 150)):
         desc = gen_desc(ctx.rng)
         model = tc.Model(desc)
-        run_cases(ctx, model, desc, gen_cases(ctx.rng, model, desc, ctx.budget(100, 300)))
+        cases = gen_cases(ctx.rng, model, desc, ctx.budget(100, 300))
+        run_cases(ctx, model, desc, cases)
+        # the queries that call a registered function, again as Python callables (last: the functions are registered anew)
+        seen, fcases = set(), []
+        for c in cases:
+            if uses_function(c[1]) and ast.dump(c[1]) not in seen:
+                seen.add(ast.dump(c[1]))
+                fcases.append(c)
+        run_cases(ctx, model, desc, fcases[:ctx.budget(10, 40)], form="callable")
 
 
 def replay(ctx, wit):
@@ -370,4 +392,4 @@ def replay(ctx, wit):
     q = eval(wit["query_dump"], dict(vars(ast)))
     qx = eval(wit["expect_dump"], dict(vars(ast)))
     ev = [tuple(e) for e in wit["events"]]
-    run_cases(ctx, model, desc, [(wit["op"], q, qx, ev, 1, 0)])
+    run_cases(ctx, model, desc, [(wit["op"], q, qx, ev, 1, 0)], form=wit.get("form", "ast"))
